@@ -90,7 +90,12 @@ func ser(sb *strings.Builder, v reflect.Value) {
 		for it.Next() {
 			kvs = append(kvs, kv{Ser(it.Key()), Ser(it.Value())})
 		}
-		sort.Slice(kvs, func(i, j int) bool { return kvs[i].k < kvs[j].k })
+		sort.Slice(kvs, func(i, j int) bool {
+			if kvs[i].k != kvs[j].k {
+				return kvs[i].k < kvs[j].k
+			}
+			return kvs[i].v < kvs[j].v
+		})
 		sb.WriteString("M" + strconv.Itoa(len(kvs)))
 		for _, e := range kvs {
 			sb.WriteString(" " + e.k + " " + e.v)
